@@ -139,6 +139,15 @@ macro_rules! c05_call {
                     if vm.frames.len() == 2 {
                         runs_current_binding(&vm, &pre, o);
                         assert!(called_native == 0);
+                    } else if o.ip == 0 {
+                        // the site re-dispatched itself (CallGlobalNative whose global no longer denotes a native):
+                        // nothing was called yet, the instruction is now a cold CallGlobal with the same operands,
+                        // whose own obligation (O2a) covers the call from this state
+                        assert!(called_native == 0 && $op == 104);
+                        assert!(pre.gval.as_ptr() != Some(pre.nat.index()));
+                        let f = match &vm.heap.get(vm.frames[0].function).unwrap().kind { ObjectKind::Function(af) => &af.function, _ => unreachable!() };
+                        assert!(f.bytecode[0] == ((77u32 << 24) | ((pre.dest as u32) << 16) | pre.nargs as u32));
+                        assert!(f.bytecode[1] == 0 && f.bytecode[2] == 0);
                     } else {
                         // no frame pushed and no error: a native was called - the one the global denotes now
                         assert!(called_native == b'n');
@@ -157,9 +166,12 @@ macro_rules! c05_call {
                 let ar = if p == pre.nat.index() { None } else {
                     match &vm.heap.get(GcRef::new(p)).unwrap().kind { ObjectKind::Function(af) => Some(af.function.arity), _ => None }
                 };
-                if ar == Some(pre.nargs) { assert!(r.is_ok() && vm.frames.len() == 2); }
+                if ar == Some(pre.nargs) {
+                    let redispatched = matches!(&out, Some(o) if o.ip == 0) && $op == 104;
+                    assert!(r.is_ok() && (vm.frames.len() == 2 || redispatched));
+                }
             }
-            kani::cover!(vm.frames.len() == 2 && pre.gval.as_ptr() == Some(pre.g2.index()), "REQ G2 entered");
+            kani::cover!(pre.gval.as_ptr() == Some(pre.g2.index()) && r.is_ok(), "REQ G2 bound and the step succeeded");
             kani::cover!(called_native == b'n', "REQ native called");
             kani::cover!(r.is_err(), "REQ error outcome");
             std::mem::forget(r);
